@@ -32,6 +32,8 @@ const (
 	opPrintSafe
 	opPrintRedactable
 	opPrintfFlags // Printf whose last verb carries width/precision/flags
+	opPrintfNoArgs // Printf with directives but no operands
+	opSafeUintBig  // SafeUint above the int64 range
 	nOps
 )
 
@@ -50,7 +52,15 @@ func mkOp(code, n int) opRec {
 	o := opRec{code: code}
 	switch code {
 	case opSafeString, opUnsafeString, opSafeBytes, opUnsafeBytes, opWrite, opWriteString, opPrintStr, opPrintfStr, opPrintSafe, opPrintfFlags:
-		if n >= 100 {
+		if n >= 1000 {
+			// a long concrete prefix (the buffer's storage is reallocated at
+			// 64 bytes and at each doubling), then one symbolic byte
+			o.bs = make([]byte, n-1000)
+			for j := range o.bs {
+				o.bs[j] = 'x'
+			}
+			o.bs = append(o.bs, vByte())
+		} else if n >= 100 {
 			// payload template (see payloadTemplates in h_escape.go)
 			o.bs = templatePayload(payloadTemplates[n-100])
 		} else {
@@ -60,6 +70,8 @@ func mkOp(code, n int) opRec {
 		o.r = vRune()
 	case opSafeByte, opUnsafeByte, opWriteByte:
 		o.b = vByte()
+	case opSafeUintBig:
+		o.i = 7 // (concrete: the decimal conversion of a symbolic 64-bit value is slow to decide)
 	case opSafeInt, opSafeUint:
 		o.i = vInt()
 		vAssume(o.i >= 0)
@@ -73,10 +85,14 @@ func mkOp(code, n int) opRec {
 // isSafeOp: the payload is declared safe.
 func isSafeOp(code int) bool {
 	switch code {
-	case opSafeString, opSafeRune, opSafeByte, opSafeBytes, opSafeInt, opSafeUint, opSafeFloat, opPrintSafe:
+	case opSafeString, opSafeRune, opSafeByte, opSafeBytes, opSafeInt, opSafeUint, opSafeFloat, opPrintSafe, opPrintfNoArgs, opSafeUintBig:
 		return true
 	}
 	return false
+}
+
+func bigUintText(i int) []byte {
+	return cat([]byte("184467440737095515"), []byte{byte('0' + i/10), byte('0' + i%10)})
 }
 
 func itoa(i int) []byte {
@@ -132,6 +148,11 @@ func (o opRec) payloadText() (text []byte, valid bool) {
 		return []byte("1.5"), true
 	case opPrintRedactable:
 		return strip(o.bs), true
+	case opPrintfNoArgs:
+		return []byte("l%l %!d(MISSING)"), true
+	case opSafeUintBig:
+		// 18446744073709551500 + i, i in 0..99
+		return bigUintText(o.i), true
 	}
 	panic("bad op")
 }
@@ -187,6 +208,10 @@ func applySW(w redact.SafeWriter, o opRec) {
 		w.Print(redact.RedactableString(o.bs))
 	case opPrintfFlags:
 		w.Printf("k%s:%+.2f|%03d/", string(o.bs), 1.5, 7)
+	case opPrintfNoArgs:
+		w.Printf("l%%l %d")
+	case opSafeUintBig:
+		w.SafeUint(redact.SafeUint(uint64(18446744073709551500) + uint64(o.i)))
 	default:
 		panic("applySW: op")
 	}
@@ -255,6 +280,12 @@ func applyManual(b *redact.ManualBuffer, o opRec) {
 	case opSafeInt, opSafeUint:
 		b.SetMode(buffer.SafeEscaped)
 		b.Write(itoa(o.i))
+	case opPrintfNoArgs:
+		b.SetMode(buffer.SafeEscaped)
+		b.WriteString("l%l %!d(MISSING)")
+	case opSafeUintBig:
+		b.SetMode(buffer.SafeEscaped)
+		b.Write(bigUintText(o.i))
 	case opSafeFloat:
 		b.SetMode(buffer.SafeEscaped)
 		b.WriteString("1.5")
